@@ -4,6 +4,7 @@ CONSTANTS
   NameSeq <- TNames
   Values <- TValues
   KindOf <- TKind
+  HSlots <- TSlots
   Depth = 0
   Emit = FALSE
   CrossKind = FALSE
